@@ -113,7 +113,7 @@ def d1_suspend_restore_pairing(ctx, rm: REModel, rule="C41.D1-suspend-restore-pa
     ok = False
     if subs:
         g = q.cfg(rs, q.quiet_policy(repo))
-        tests = [n.ast for n in g.nodes if n.kind == "test"]
+        tests = [q.expand_at(g, n.id, n.ast) for n in g.nodes if n.kind == "test"]  # locals followed back to the attribute they were read from
         guards = {a for t in tests for a in written if f"self.{a}" in A.norm(t)}
         ok = bool(guards)
     ctx.ob(rule, cname(rs, None, "re-subscription guarded by state that suspend_monitors records"), ok,
@@ -199,7 +199,13 @@ def monitor_forgotten_only_after_unsubscribed(ctx, rm: REModel, rule: str):
 def d2_removal_sites(ctx, rm: REModel):
     monitor_forgotten_only_after_unsubscribed(ctx, rm, "C41.D2-subscription-removed")
     um = rm.b("unmonitor")
-    g = [s for s in A.walk_stmts(um.node.body) if isinstance(s, ast.If) and "not in self._monitor_params" in A.norm(s.test) and any(isinstance(x, ast.Raise) for x in s.body)]
+    # membership test, or a `.get(obj)` looked up once and compared with None
+    g = []
+    for s in A.walk_stmts(um.node.body):
+        if isinstance(s, ast.If) and any(isinstance(x, ast.Raise) for x in s.body):
+            t = A.norm(q.expand(um.node, s.test, keep=("obj",)))
+            if "not in self._monitor_params" in t or t in ("self._monitor_params.get(obj) is None", "self._monitor_params.get(obj, None) is None"):
+                g.append(s)
     ctx.ob("C41.D2-subscription-removed", cname(um, None, "unmonitor of an unmonitored object is rejected"), bool(g), "" if g else "guard missing", where=where(um, um.node))
     mon = rm.b("monitor")
     g = [s for s in A.walk_stmts(mon.node.body) if isinstance(s, ast.If) and "in self._monitor_params" in A.norm(s.test) and any(isinstance(x, ast.Raise) for x in s.body)]
